@@ -34,6 +34,8 @@ KINDS = {
     81: 'host.ClientIdentifierValidator differs from the model\'s valid_chain_name',
     82: 'common.IsHexAddress differs from the model\'s is_hex_address',
     83: 'sdk.ValidateDenom differs from the model\'s valid_denom',
+    84: 'a client / consensus state value reports (ClientType()) another client type than that of its own light client package',
+    91: 'an operation of a corpus history (the witness of a repaired defect) is no longer executed by the real code',
     11: 'ExportGenesis panicked',
     12: 'the exported xibc genesis is rejected by the module\'s own validation',
     13: 'the exported aggregate genesis is rejected by the module\'s own validation',
@@ -130,7 +132,7 @@ def gen_term(g):
 
 def tables_term(t):
     def rows(rs):
-        return coq_list(['(%s, (%s, %s))' % (cv(r['v']), CTYPE.get(r['t'], 'TM'), coq_bool(r['ok'])) for r in rs])
+        return coq_list(['(%s, (%s, (%s, %s)))' % (cv(r['v']), CTYPE.get(r.get('c'), 'TM'), CTYPE.get(r['t'], 'TM'), coq_bool(r['ok'])) for r in rs])
     return '{| t_cs := %s; t_cons := %s; t_rel := %s; t_tp := %s; t_sha := %s; t_addr := %s |}' % (
         rows(t['cs']), rows(t['cons']),
         coq_list(['(%s, %s)' % (cv(r['v']), rel_term(r['r'])) for r in t['rel']]),
